@@ -104,6 +104,8 @@ def build(cube, fixed=None, engine=None):
             p['rec'] = h.add(o)
         elif op == 'I':
             p.update(loop_iteration(c, k))
+        elif op == 'S':
+            p['rec'] = read_only_calls(c)
         elif op == 'M':
             q = inp.qty('q%d' % k)
             if cube.get('match_from_one', True):
@@ -144,6 +146,38 @@ def build(cube, fixed=None, engine=None):
 
 STALE_ID = 0x55
 SET_ASIDE_ID = 0x41
+
+
+def read_only_calls(c):
+    """op 'S': every read-only entry point of the level, executed from its MIR"""
+    from .values import RefV
+    h, ex = c.h, c.ex
+    pre = h.resting()
+    before = h.level_value()
+    called = []
+
+    def call(name, args):
+        r, h.st, l = ex.call(name, args, h.st, h._pc())
+        h._did(l)
+        called.append(name)
+        return r
+    call('PriceLevel::price', [h.lref])
+    call('PriceLevel::visible_quantity', [h.lref])
+    call('PriceLevel::hidden_quantity', [h.lref])
+    call('PriceLevel::order_count', [h.lref])
+    call('PriceLevel::iter_orders', [h.lref])
+    call('PriceLevel::snapshot', [h.lref])
+    stats = call('PriceLevel::stats', [h.lref])
+    sroot = ex.alloc(h.st, stats, 'statsarc')
+    for g in ('orders_added', 'orders_removed', 'orders_executed', 'quantity_executed', 'value_executed'):
+        call('PriceLevelStatistics::' + g, [RefV(sroot, ())])
+    call('<PriceLevelData as From<&PriceLevel>>::from', [h.lref])
+    froot = ex.alloc(h.st, ('formatter', 'opaque'), 'fmt')
+    call('<PriceLevel as Display>::fmt', [h.lref, RefV(froot, ())])
+    rec = {'op': 'read', 'pre': pre, 'post': h.resting(), 'agg': h.aggregates(), 'before': before,
+           'after': h.level_value(), 'called': called, 'ret': None}
+    h.steps.append(rec)
+    return rec
 
 
 def loop_iteration(c, k):
@@ -330,6 +364,14 @@ def script_and_prediction(c, model, upto=None):
     pred = []
     for k, p in enumerate(c.params):
         rec = p['rec']
+        if p['op'] == 'S':
+            ops.append({'op': 'observe'})
+            e = {'kind': 'read'}
+            for kk in ('visible', 'hidden', 'count'):
+                e[kk] = conc(rec['agg'][kk], model)
+            e['orders'] = sorted(canon(order_json(L, conc(o, model))) for occ, key, o in rec['post'] if conc(occ, model))
+            pred.append(e)
+            continue
         if upto is not None and k >= upto:
             if p['op'] == 'M':
                 ops.append({'op': 'match', 'quantity': conc(p['q'], model), 'taker': uuid_str(TAKER_ID)})
